@@ -39,6 +39,11 @@ func NewClientServerStream(ctx context.Context) *ClientServerStream {
 
 func (s *ClientServerStream) Close(err error) {
 	s.closeErr = err
+	if s.ctx.Err() == nil {
+		// like a real server, headers that were set but not yet sent are delivered with the final status,
+		// unless the client has already gone away
+		(&serverStream{s}).sendHeaderIfNeeded()
+	}
 	close(s.serverSend)
 	s.closed()
 }
